@@ -35,6 +35,9 @@ VARIANTS = [
     ('h_nonstog', {'hard': True, 'rectangles': NONSTOG}),
     ('f_one', {'fixed': True, 'rectangles': [[0.3, 0.7, 0.2, 0.4]]}),
     ('f_two', {'fixed': True, 'rectangles': STOG2}),
+    ('f_flat', {'fixed': True, 'rectangles': [7, 7, 2, 1]}),          # single rectangle in the flat shorthand
+    ('h_flat', {'hard': True, 'rectangles': [7.5, 3, 1, 2]}),
+    ('h_three', {'hard': True, 'rectangles': [[5, 2, 10, 4], [3, 5, 4, 2], [8, 5, 4, 2]]}),   # trunk + two north branches
     ('t_plain', {'terminal': True}),
     ('t_ctr', {'terminal': True, 'center': [0, 3.5]}),
     ('t_fixed', {'terminal': True, 'fixed': True, 'center': [1, 1]}),
